@@ -132,11 +132,11 @@ def job_factory(res):
 
 def main(tier):
     chk = Check('C11', tier, '4/C11 (9.9)')
-    jobs = [(job_reader, (3,)), (job_reader, (4,)), (job_factory, ()), (preloop.job_preloop, ('C11',))]
+    jobs = [(job_reader, (3,)), (job_reader, (4,)), (job_factory, ()), (preloop.job_preloop, ('C11',)), (preloop.job_rw_sets, ())]
     chk.bounds = {'reader': 'dataset rank 3 and 4, every record count < 2^62, grid width and bunch count < 2^31, every requested record number in [-records, records)', 'set-up': 'all paths (w.r.t. the renormalisation setting and null tests of phase-space pointers) from the loader call to the first loop test; other decisions one way, both preferences',
                   'claimed part of the statement': 'first sentence first half (loads exactly the stored values) and the refusal sentence; that T2 further periods agree within rounding is NOT decided (needs two program runs): it is argued from this start-state obligation plus the step being a function of the grid (C12), see DESIGN 9.9'}
     chk.assumptions = ['libhdf5 is a correct store: a hyperslab of extents (1,[b,]n,n) read into a memory space of the same extents fills the row-major grid [x][y] in order - the same layout HDF5File::append(PhaseSpace) writes (C10 recorder obligations)',
-                       'read/write sets of the PhaseSpace methods used by the freshness rule: updateX/YProjection read the grid and write the projection; integrate reads the position profile and writes charge; normalize rescales the grid; variance reads a projection and the charges (C09/C12 obligations on the same functions)',
+                       'the read/write sets the freshness rule uses are derived from the real PhaseSpace code in this check (rw-sets obligation); the first normalize() after loading rescales by set share / charge of the constructor\'s own Gaussian, which is 1 within rounding (C09)',
                        'dynamic RF modulation, tracking particles and the step counter (renormalisation / output cadence phase) are not part of a stored record: runs using them are outside', 'HDF5 exceptions while the file is open are H5::Exception objects']
     chk.stubs = ['H5:: API: recorder', 'every call of main / the factory other than std:: helpers on local containers: event', 'C++ exceptions: unwinding with type matching (H5::Exception is matched by name)']
     chk.add(run_jobs(jobs, budget=900))
